@@ -21,6 +21,7 @@ func init() {
 			{"raw-xml", "data values reaching raw XML sinks pass an encoding/xml escaper", ruleRawXML},
 			{"ct-media", "media part extension = registered content-type default extension (same symbolic source)", ruleCTMedia},
 			{"save-complete", "Save and ToBytes run the same regeneration sequence incl. content types and relationships", ruleSaveSibling},
+			{"clone-alias", "a rendered document does not share its content-type lists with the template (mutability-aware alias analysis of cloneDocument)", ruleCloneAliasFor("ContentTypes", "Document")},
 		},
 		Assumptions: append([]string{"encoding/xml escapes text and attribute values and replaces invalid characters"}, commonAssumptions...),
 	}
@@ -32,16 +33,18 @@ func init() {
 			{"fresh-dep/relid", "new relationship ids depend on existing ids (dependence slice)", ruleFreshRelID},
 			{"rel-attach", "relationship type → owning list and target ↔ stored part key", ruleRelAttach},
 			{"ref-flow", "body references carry the id of the relationship just created", ruleRefFlow},
+			{"clone-alias", "a rendered document does not share its relationship lists with the template (mutability-aware alias analysis of cloneDocument)", ruleCloneAliasFor("Relationships", "Document")},
 		},
 		Assumptions: commonAssumptions,
 	}
 	props["C03"] = PropSpec{
 		Title:       "Saving then opening a document loses nothing the library can express",
-		Explanation: "Decides 'the hand-written reader covers the struct-tag driven writer': for every struct reachable from the body element kinds, every element field has a reader case for its local name whose region stores into that field, every attribute field is filled from the attribute of the same name (provenance of the stored value), every body element kind the API can append is constructed by the reader, and hand-written MarshalXML methods pass every tagged field to the encoder. A necessary condition of the round trip, not the round trip itself.",
+		Explanation: "Decides 'the hand-written reader covers the struct-tag driven writer': for every struct reachable from the body element kinds, every element field has a reader case for its local name whose region stores into that field, every attribute field is filled from the attribute of the same name (provenance of the stored value), every body element kind the API can append is constructed by the reader, hand-written MarshalXML methods pass every tagged field to the encoder, and the body marshaller collects every element of the list in order. A necessary condition of the round trip, not the round trip itself.",
 		NotDecided:  "value-level fidelity (whitespace inside w:t, numeric formatting), cycle stability beyond reader ⊇ writer",
 		Rules: []Rule{
 			{"schema-read/attr/body", "reader covers writer struct tags (regions of StartElement.Name.Local comparisons, attribute provenance)", ruleSchema},
 			{"marshal-cover", "custom MarshalXML methods encode every tagged field", ruleMarshalCover},
+			{"sectpr-last", "Body.MarshalXML collects every non-section element, in order (shape of the collecting loop)", ruleSectPrLast},
 		},
 		Assumptions: append([]string{"encoding/xml marshals exactly the tagged fields", "reader functions are those statically reachable from (*Document).parseDocument"}, commonAssumptions...),
 	}
@@ -85,6 +88,7 @@ func init() {
 		NotDecided:  "races between goroutines using the SAME document; third-party packages",
 		Rules: []Rule{
 			{"global-state", "classification of every package-level variable by reachable writers (mutation summaries over the VTA call graph)", func(r *Run) { ruleGlobalState(r, nil) }},
+			{"clone-alias", "documents derived from one another (template rendering) share no object the library can later change", ruleCloneAliasFor()},
 		},
 		Assumptions: commonAssumptions,
 	}
@@ -201,6 +205,7 @@ func init() {
 			{"publish-immut", "published templates are immutable", rulePublishImmut},
 			{"render-pure", "rendering writes only the clone", ruleRenderPure},
 			{"clone-pure", "clone functions do not write their source", ruleClonePure},
+			{"clone-alias", "the clone shares no library-mutable object with the base document", ruleCloneAliasFor()},
 		},
 		Assumptions: commonAssumptions,
 	}
